@@ -152,7 +152,7 @@ def _run_graph(seed: int) -> dict:
             prev_size = len(B)
             for st, app in env.apps.items():
                 rev = {ids[i][st]: i for i in range(n)}
-                for k in (1, 2, 10):
+                for k in (0, 1, 2, 10):
                     try:
                         got = [rev.get(str(g), str(g)) for g in app.orchestrator.get_blocking_invocations(k)]
                     except Exception as e:  # noqa: BLE001
@@ -176,6 +176,8 @@ def _run_graph(seed: int) -> dict:
                             else:
                                 why.append("not-awaited")
                         viol.append({"signature": f"C09/graph/{st}/reports-non-blocking/{why[0]}", "message": f"step {step}: get_blocking_invocations({k}) -> {got}; {extra} are not blocking ({why}); model B={sorted(B)}, edges={sorted(edges)}, statuses={[s[0] for s in state]}; trace tail {trace[-6:]}"})
+                    elif len(got) > k:
+                        viol.append({"signature": f"C09/graph/{st}/exceeds-limit/k={k}", "message": f"step {step}: get_blocking_invocations({k}) -> {got}: more than the requested limit; B={sorted(B)}"})
                     elif len(got) != want_n:
                         viol.append({"signature": f"C09/graph/{st}/misses-blocking", "message": f"step {step}: get_blocking_invocations({k}) -> {got}, expected {want_n} of B={sorted(B)}; edges={sorted(edges)}, statuses={[s[0] for s in state]}; trace tail {trace[-6:]}"})
         tr = repr(trace).encode()
@@ -248,8 +250,8 @@ def _run_trees(seed: int, stack: str, replay: dict | None) -> dict:
             st["probe.group_wait"] = 1
         if _depth(spec) >= 2 and slots == 1:
             st["probe.slot_exhausted_by_waiter"] = 1
-        if sim.abort_reason and not out.get("final"):
-            # the client's own budget (100 virtual s) is smaller than max_time; an abort means a harness budget
+        if "final" not in out:
+            # the client never reached its own verdict (its budget is 100 virtual s, max_time is larger): harness budget
             common["inconclusive"] = True
         elif not out.get("final"):
             last_change = max((e["ts"] for e in w.tlog), default=sim.epoch) - sim.epoch
